@@ -87,6 +87,11 @@ try:
             if got != (None, False):
                 w = dict(case=f"{cname}: offloaded bytes deleted", read=repr(got)[:80], expected="(None, False)")
                 break
+            # recording the value again makes it readable again
+            n += 1
+            if b.record_value(v) != h or b.get_value(h) != (v, True):
+                w = dict(case=f"{cname}: value recorded again after its offloaded bytes were lost", read=repr(b.get_value(h))[:80], expected="the value")
+                break
         # FileCache file deleted => absent
         n += 1
         v = Blob("to-delete-" + cname)
